@@ -15,3 +15,20 @@ def message_classes(world):
     }))
     for n in ('MethodCallMessage', 'MethodReturnMessage', 'ErrorMessage', 'SignalMessage'):
         world.add_class(ClassSpec(n, getattr(message, n), {}, bases=('DBusMessage',)))
+
+
+def protocol_classes(world):
+    from txdbus import protocol
+    world.add_class(ClassSpec('Transport', None, {
+        'disconnecting': BOOL,
+        'g_out': BYTES,          # ghost: bytes written so far (order preserving)
+        'g_closed': BOOL,        # ghost: loseConnection() was called
+        'g_nwrites': INT,
+    }))
+    world.add_class(ClassSpec('BasicDBusProtocol', protocol.BasicDBusProtocol, {
+        '_buffer': BYTES, '_authenticated': BOOL, '_nextMsgLen': INT, '_endian': STR,
+        '_client': BOOL, '_firstByte': BOOL, '_receivedFDs': OPAQUE, '_unix_creds': OPAQUE,
+        '_dbusAuth': Opt(Ref('IAuth')), 'transport': Ref('Transport'), 'guid': OPAQUE,
+        'g_flat': BYTES,         # ghost: concatenation of the raw messages delivered so far
+        'g_count': INT,          # ghost: number of raw messages delivered so far
+    }))
